@@ -89,8 +89,12 @@ int cif_packet_create(cif_packet_tp **packet, UChar *names[]) {
                     entry->key_orig = cif_u_strdup(*next);
 
                     if (entry->key_orig == NULL) {
+                        /* the packet aliases the normalized names: release them with it, each exactly once */
+                        (*packet)->map.is_standalone = 1;
                         cif_packet_free(*packet);
-                        FAIL(soft, CIF_MEMORY_ERROR);
+                        *packet = NULL;
+                        free(names_norm);
+                        return CIF_MEMORY_ERROR;
                     }
                 }
             }
